@@ -1,2 +1,137 @@
-/- Model driver for C20 (line protocol). Stub until the property's model lands. -/
-def main : IO Unit := pure ()
+/-
+  Model driver for C20 (line protocol; bytes as hex, "-" = empty). Imports Model + Gen only.
+    words T                -> "ok W1 W2 …" (word = segments joined by '+': L:<hex> literal, V:<hex> variable, A = ${1+"$@"}) | "err <kind>"
+    sed PROG INPUT         -> "ok <hex>" | "none"                      (mini-sed on arbitrary program text)
+    esc S                  -> "ok <hex>"                               ($(printf '%sX\n' "$S" | sed "$escape") with the Gen literals)
+    site K S               -> "ok <hex>"                               (new value of the K-th xzgrep quoting site's variable; 4 = xzdiff)
+    split REST             -> "ok <hex>"                               (arg2 of the option-splitting site for the remainder REST)
+    label NAME INPUT       -> "ok <script hex> <output hex>" | "none"  (sed_script for NAME, and sed "$sed_script" on INPUT)
+    glob PATS S            -> "ok 0|1" | "none"
+    dispatch grep|diff1|diff2|one NAME -> "ok <hex of command word>" | "ok -" (no arm) | "none"
+    gstatus R XZ|E RES     -> "exit N" | "cont RES"
+    sstatus R P            -> "exit N"
+    dstatus CMP N,N,…|-    -> "exit N"
+-/
+import XzVerif.Model.Proto
+import XzVerif.Model.Shell
+import XzVerif.Gen.C20
+open XzVerif XzVerif.Proto XzVerif.Shell XzVerif.Gen.C20
+
+def segStr : Seg → String
+  | .lit b => "L:" ++ hexOfBytes b
+  | .var n => "V:" ++ hexOfBytes n
+  | .args => "A"
+
+def wordStr (w : Word) : String := "+".intercalate (w.map segStr)
+
+def errStr : RErr → String
+  | .nul => "nul"
+  | .operator c => s!"operator:{c}"
+  | .expansion c => s!"expansion:{c}"
+  | .badDollar => "baddollar"
+  | .unterminated => "unterminated"
+
+def okHex (o : Option Bytes) : String :=
+  match o with
+  | some b => "ok " ++ hexOfBytes b
+  | none => "none"
+
+def envOf (pairs : List (Bytes × Bytes)) : VarEnv := fun n =>
+  match pairs.find? (·.1 == n) with
+  | some p => p.2
+  | none => []
+
+def labelSrc : LabelSrc := ⟨labelSuffixSrc, labelGuardPats, labelPrintfFmt, labelSedSrc, labelScriptSrc⟩
+
+def flowStr : Flow → String
+  | .exit n => s!"exit {n}"
+  | .go e => s!"cont {e.res}"
+  | .next e => s!"cont {e.res}"
+
+def step (_ : Unit) (ws : List String) : Unit × String :=
+  match ws with
+  | ["words", t] =>
+    match bytesOfHex t with
+    | some bs =>
+      match shWords bs with
+      | .ok wl => ((), "ok" ++ String.join (wl.map fun w => " " ++ wordStr w))
+      | .error e => ((), "err " ++ errStr e)
+    | none => ((), "bad-op")
+  | ["sed", p, i] =>
+    match bytesOfHex p, bytesOfHex i with
+    | some pb, some ib => ((), okHex (sedRun pb ib))
+    | _, _ => ((), "bad-op")
+  | ["esc", s] =>
+    match bytesOfHex s with
+    | some sb => ((), okHex (printfSedSubst grepEscapeSrc siteOperands.fmt sb))
+    | none => ((), "bad-op")
+  | ["site", k, s] =>
+    match k.toNat?, bytesOfHex s with
+    | some kk, some sb =>
+      let site := (grepSites ++ [diffSite]).getD kk siteOperands
+      let esc := if kk = 4 then diffEscapeSrc else grepEscapeSrc
+      ((), okHex (site.value esc (envOf [(site.var, sb)])))
+    | _, _ => ((), "bad-op")
+  | ["split", s] =>
+    match bytesOfHex s with
+    | some sb =>
+      let r := do
+        let pre ← litWord splitPrefixSrc
+        let prog ← litWord grepEscapeSrc
+        let out ← sedRun prog (sb ++ splitGuardSuffix ++ [NL])
+        pure (pre ++ cmdSubst out)
+      ((), okHex r)
+    | none => ((), "bad-op")
+  | ["label", n, i] =>
+    match bytesOfHex n, bytesOfHex i with
+    | some nb, some ib =>
+      match labelSrc.sedScript nb with
+      | some sc =>
+        match sedRun sc ib with
+        | some out => ((), "ok " ++ hexOfBytes sc ++ " " ++ hexOfBytes out)
+        | none => ((), "none")
+      | none => ((), "none")
+    | _, _ => ((), "bad-op")
+  | ["glob", p, s] =>
+    match bytesOfHex p, bytesOfHex s with
+    | some pb, some sb =>
+      match caseMatch pb sb with
+      | some b => ((), if b then "ok 1" else "ok 0")
+      | none => ((), "none")
+    | _, _ => ((), "bad-op")
+  | ["dispatch", which, n] =>
+    match bytesOfHex n with
+    | some nb =>
+      let r : Option (Option Bytes) :=
+        if which == "grep" then dispatch grepDispatch nb
+        else if which == "diff1" then dispatch diffDispatch1 nb
+        else if which == "diff2" then dispatch diffDispatch2 nb
+        else (dispatch diffDispatchOne nb).map fun o => o.map fun c => c.getD [120, 122]   -- "xz" stands for "keep $xz"
+      match r with
+      | some (some c) => ((), "ok " ++ hexOfBytes c)
+      | some none => ((), "ok -")
+      | none => ((), "none")
+    | none => ((), "bad-op")
+  | ["gstatus", r, xz, res] =>
+    match r.toNat?, res.toNat? with
+    | some rr, some rs =>
+      let e : Env := if xz == "E" then { r := rr, res := rs, xzEmpty := true } else { r := rr, xz := xz.toNat?.getD 0, res := rs }
+      ((), flowStr (runStmts grepFileStatus e))
+    | _, _ => ((), "bad-op")
+  | ["sstatus", r, p] =>
+    match r.toNat?, p.toNat? with
+    | some rr, some pp => ((), flowStr (runStmts grepSedStatusStmts { r := rr, pipe := pp }))
+    | _, _ => ((), "bad-op")
+  | ["dstatus", c, ns] =>
+    match c.toNat? with
+    | some cc =>
+      let nums := if ns == "-" then [] else (ns.splitOn ",").filterMap String.toNat?
+      let f := match diffLoop diffStatusBody { cmp := cc } nums with
+        | .exit k => Flow.exit k
+        | .go e => runStmts diffStatusFinal e
+        | .next e => runStmts diffStatusFinal e
+      ((), flowStr f)
+    | none => ((), "bad-op")
+  | _ => ((), "bad-op")
+
+def main : IO Unit := runLoop step ()
